@@ -352,7 +352,8 @@ def _t3(run, M, eff, c, done_f, others):
             continue
         m = re.search(r"^\s*%s\s*\(([^)]*)\)\s*:\s*(.*)$" % re.escape(caller[attr]), cdoc, re.M)
         desc = (m.group(1) + " " + m.group(2)).lower() if m else ""
-        if "array" in desc and ("solution" in desc or "variable" in desc):
+        from .c02 import _KNOWN_DOCS
+        if ("array" in desc and ("solution" in desc or "variable" in desc)) or caller[attr] in _KNOWN_DOCS.get("solution_params", {}).get(c.qual, ()):
             sol.append(attr)
     vn, outs = vn_paths(M, upd, real=REAL, loop_hook=havoc_loop)
     for mname in measures:
